@@ -147,8 +147,25 @@ pub struct Sys<E: Engine> {
     pub last_op: Option<E::O>,
 }
 
+thread_local! {
+    /// source file of the last panic on this thread (set by the panic hook installed in main)
+    pub static LAST_PANIC_FILE: std::cell::RefCell<String> = std::cell::RefCell::new(String::new());
+}
+
+/// A panic raised by the harness's own code (its files are compiled with the relative path `src/...`; the library
+/// and std have absolute paths) is a tool failure, not an observation about the library: it is passed on.
+fn harness_origin(file: &str) -> bool {
+    file.starts_with("src/") || file.starts_with("harness/src/")
+}
+
 pub fn catch<T>(f: impl FnOnce() -> T) -> Result<T, String> {
+    LAST_PANIC_FILE.with(|l| l.borrow_mut().clear());
     catch_unwind(AssertUnwindSafe(f)).map_err(|e| {
+        let file = LAST_PANIC_FILE.with(|l| l.borrow().clone());
+        if harness_origin(&file) {
+            eprintln!("harness panic at {}", file);
+            std::panic::resume_unwind(e);
+        }
         if let Some(s) = e.downcast_ref::<String>() {
             s.clone()
         } else if let Some(s) = e.downcast_ref::<&str>() {
